@@ -361,6 +361,17 @@ func cliSearch(c *fw.Ctx) {
 				gb.Origin = seqio.NewOrigin(seq)
 				c.Bucket("cli:search record of self-complementary letters")
 			}
+			if it%7 == 5 && len(gbs) == 0 {
+				// a record that reads the same on both strands.
+				h := seq[:len(seq)/2]
+				pal := append([]byte{}, h...)
+				for i := len(h) - 1; i >= 0; i-- {
+					pal = append(pal, model.ComplementByte(h[i]))
+				}
+				seq = pal
+				gb.Origin = seqio.NewOrigin(seq)
+				c.Bucket("cli:search record equal to its reverse complement")
+			}
 			if rna {
 				seq = bytes.ReplaceAll(seq, []byte("t"), []byte("u"))
 				gb.Origin = seqio.NewOrigin(seq)
@@ -850,6 +861,18 @@ func cliRepair(c *fw.Ctx) {
 				c.Bucket("cli:repair stream ending in a record without features")
 				if rs, err := parseOut(so); err != nil || len(rs) != 2 {
 					c.Violate("cli:repair-pipeline:stream-records-lost", enc, "2 records", fmt.Sprintf("%d records err=%v", len(rs), err))
+					continue
+				}
+			}
+		}
+		// a stream of the intact record followed by the joined pieces: each
+		// record is repaired on its own.
+		if it%2 == 1 {
+			alone, ok1 := run([]string{"repair"}, []byte(input))
+			if both, ok2 := run([]string{"repair"}, append([]byte(input), s2...)); ok1 && ok2 {
+				c.Bucket("cli:repair stream of an intact record and a cut one")
+				if !bytes.Equal(both, append(append([]byte{}, alone...), s3...)) {
+					c.Violate("cli:repair-pipeline:stream-differs-from-records-alone", enc, clipS(string(alone)+string(s3), 2500), clipS(string(both), 2500))
 					continue
 				}
 			}
